@@ -125,9 +125,10 @@ def mul_cases(cv, rng, quick):
         return gen_ep2.mul_point(cv, rng, ms)
     dm = (1 << cv.dgb) - 1
     digs = [0, 1, 2, 3, dm, dm - 1, 1 << (cv.dgb - 1), dm // 3, rng.getrandbits(cv.dgb), rng.getrandbits(cv.dgb)]
+    frb = gen_ep2.frb_corners(cv, rng, per=1, variants=not quick)
     for g, pt, out in (("g1", p1, g1), ("g2", p2, g2)):
         for op in ("mul", "mul_sec", "mul_any"):
-            for k in ks():
+            for k in ks() + (frb if g == "g2" and op != "mul_any" else []):
                 out.append("%s_%s %s %d %s %s" % (g, op, c, rng.choice([0, 0, 1]), pt(), hx(k)))
             out.append("%s_%s %s 0 inf %s" % (g, op, c, hx(rng.choice(corners))))
         for k in ks():
@@ -162,10 +163,10 @@ def mul_cases(cv, rng, quick):
     def el():
         return "g" + hx(rng.choice([1, 2, n - 1, rng.randrange(1, n), rng.randrange(1, n)]))
     for op in ("gt_exp", "gt_exp_sec"):
-        for k in rng.sample(S, min(pg, len(S))):
+        for k in rng.sample(S, min(pg, len(S))) + (frb if op == "gt_exp" or not quick else frb[:4]):
             gt.append("%s %s %d %s %s" % (op, c, rng.choice([0, 0, 1]), el(), hx(k)))
         gt.append("%s %s 0 one %s" % (op, c, hx(rng.choice(S))))
-    for k in rng.sample(S, min(pg, len(S))):
+    for k in rng.sample(S, min(pg, len(S))) + frb[:(6 if quick else len(frb))]:
         gt.append("gt_exp_gen %s 0 %s" % (c, hx(k)))
     for d in digs[:5 if quick else 10]:
         gt.append("gt_exp_dig %s %d %s %x" % (c, rng.choice([0, 1]), el(), d))
